@@ -161,7 +161,6 @@ def envsFor (pc : Pc) (ev : Event) : List Env :=
     | "mq.is_empty", _ => [.isEmpty]
     | "mq.drop", _ => [.drop]
     | _, _ => []
-  | .pCas .. => [.go, .aba]
   | _ => [.go]
 
 /-- a generic label that matches the event (the comparison was done on the rendered expectation) -/
@@ -180,7 +179,15 @@ def cands (r : RSt) (t : Nat) (ev : Event) : List (Label × RSt × String) :=
       else [(noLabel [{ kind := "call", op := "mq.bulk.item", a1 := toString i, a2 := toString (l[i.toNat]?.getD 0) }], r, "")]
     | _, _, _ => []
   else
-    (envsFor pc ev).filterMap fun e =>
+    -- the `.aba` environment is offered only where it differs from `.go` (the engine keeps every matching candidate
+    -- as an alternative, so identical successors must not be offered twice)
+    let envs : List Env := match pc with
+      | .pCas _ w =>
+        let sh := s.sh
+        if sh.tail != w && !sh.live w.blk && w.idx == sh.tail.idx && !sh.tail.closing && sh.start w.blk < sh.start sh.tail.blk
+        then [.go, .aba] else [.go]
+      | _ => envsFor pc ev
+    envs.filterMap fun e =>
       match step s t e with
       | none => none
       | some s' =>
